@@ -41,8 +41,15 @@ func judge(c *vt.Ctx, p conc.Program, seq map[string]bool, choose sched.Chooser)
 		return nil, nil
 	}
 	c.Eval(1)
+	if res.Verdict.Kind == "deadlock" {
+		// calls that never return have no results: no sequential ordering (in which every call
+		// returns) explains the execution. C07 reports the same fact from its own angle.
+		d := vt.Dev("prop", "C06", "fs", p.FS, "ops", p.Kinds(), "verdict", "deadlock:"+res.Verdict.Shape)
+		d.Detail = fmt.Sprintf("%s: the calls do not return under schedule %v: %s", p, res.Verdict.Trace, res.Verdict.Detail)
+		return d, res
+	}
 	if res.Verdict.Kind != "ok" {
-		c.Label("not-judged:" + res.Verdict.Kind) // deadlock / panic / budget: C07's business
+		c.Label("not-judged:" + res.Verdict.Kind) // panic / budget: C07's business
 		return nil, res
 	}
 	if res.Verdict.Contended && res.Verdict.Preempt > 0 {
@@ -125,6 +132,43 @@ func TestCheck(t *testing.T) {
 			}
 		}
 		c.Extra("systematic_"+kind, fmt.Sprintf("%d programs (pairs of %d call templates x %d start trees, this shard), %d scheduled executions, pre-emption bound %d", progs, len(calls), len(pn), execs, maxPre))
+	}
+
+	// tier 1b: operands directly in the root directory (MemFS: OrefaFS cannot address its root)
+	{
+		wf := func(p, d string) fsx.Op { return fsx.Op{K: "WriteFile", P: p, Data: d, Perm: 0o644} }
+		prefix := []fsx.Op{{K: "Mkdir", P: "/w/a", Perm: 0o755}, wf("/w/a/x", "AX"), wf("/x0", "X0"), {K: "Mkdir", P: "/r", Perm: 0o755}, wf("/r/x", "RX")}
+		lsdir := func(p string) []fsx.Op {
+			return []fsx.Op{{K: "Open", P: p, Flag: os.O_RDONLY, H: 1}, {K: "FReadDir", H: 1, N: -1}, {K: "FClose", H: 1}}
+		}
+		rootCalls := [][]fsx.Op{
+			{{K: "Rename", P: "/w/a/x", P2: "/y"}}, {{K: "Rename", P: "/x0", P2: "/w/a/x0"}}, {{K: "Rename", P: "/r/x", P2: "/x0"}}, {{K: "Rename", P: "/w/a", P2: "/a2"}},
+			{{K: "Rename", P: "/r", P2: "/w/a/r"}}, {{K: "Link", P: "/w/a/x", P2: "/lx"}}, {{K: "Link", P: "/x0", P2: "/r/lx"}},
+			lsdir("/"), lsdir("/w"), lsdir("/r"),
+			{{K: "Mkdir", P: "/m", Perm: 0o755}}, {{K: "Remove", P: "/x0"}}, {{K: "RemoveAll", P: "/r"}}, {{K: "Stat", P: "/x0"}},
+			{{K: "Open", P: "/x0", Flag: os.O_WRONLY | os.O_CREATE | os.O_EXCL, Perm: 0o644, H: 0}, {K: "FClose", H: 0}}, {{K: "MkdirAll", P: "/r/m/n", Perm: 0o755}},
+		}
+		i, execs := 0, 0
+		for a, c1 := range rootCalls {
+			for b, c2 := range rootCalls {
+				if b < a {
+					continue
+				}
+				i++
+				if i%c.NShards != c.Shard {
+					continue
+				}
+				p := conc.Program{FS: "MemFS", Prefix: prefix, Workers: [][]fsx.Op{c1, c2}}
+				seq, err := conc.Sequential(p)
+				if err != nil {
+					c.Inconclusive("sequential: " + err.Error())
+					continue
+				}
+				n, _ := explore(c, p, seq, maxPre, c.Pick(200, 2000))
+				execs += n
+			}
+		}
+		c.Extra("systematic_root_MemFS", fmt.Sprintf("%d scheduled executions of 2-worker programs on root-level operands", execs))
 	}
 
 	// tier 2: random programs of 2-3 workers x 1-2 calls under random schedules
